@@ -45,6 +45,8 @@ def run(chk, repo):
         'C06.c records of a transcript are gathered from ALL pointers of the key and sorted; '
         'filter_variants sorts its result; pointer registration appends',
         'C06.d processing order is a sort by an injective rank',
+        'C06.e raw-file and index references parameterise the canonical pool identically (normalised exception, '
+        'same six parameters) and the index branch looks the pool up by those parameters',
     ]
     chk.not_decided = ['equality of peptide sets across hash seeds (needs commutativity of graph algorithms)',
                        'index-vs-raw reference equality beyond parameter agreement (see C10/C12)']
@@ -357,3 +359,12 @@ def run(chk, repo):
             not any(isinstance(n, (ast.Break, ast.Continue, ast.Return)) for n in ast.walk(fl[0]))
     chk.ob('C06.c', 'every GVF file is indexed (idx or generated), none skipped', op.where, ok,
            'open() does not register pointers for every GVF file', key=op.qual + '::every-file', fn=op.qual)
+
+    # ------------------------------------------------------------------ C06.e
+    from rules.C10 import rule_thread
+    rule_thread(chk, repo, rid='C06.e', quals=('cli.common:load_references', 'cli.generate_index:generate_index'))
+    lr = repo.func('cli.common:load_references')
+    lc = G.find_calls(lr.node, 'load_canonical_peptides')
+    ok = len(lc) == 1 and [unparse(a) for a in lc[0].args] == ['cleavage_params']
+    chk.ob('C06.e', 'index branch loads the pool by the same cleavage_params', repo.loc(lr, lc[0]) if lc else lr.where, ok,
+           'the index branch does not look the canonical pool up by cleavage_params', key='cli.common:load_references::index-lookup', fn=lr.qual)
